@@ -401,8 +401,23 @@ def case_periodic_fft(rec, nb, G, fftlib, NKFFT=(2, 1, 2)):
 
 
 # ---- cases -------------------------------------------------------------------------------------------------------------------------------------------------------
-HEAVY = ()
-NOT_FINISHING = ()
+# measured CPU seconds per label at nb=3 (three generators, two band groups, all gap patterns) decide the tier
+QUICK_BASES = ("basic.tildeFab", "basic.tildeFc", "basic.tildeHGc", "basic.tildeHab", "covariant.Der2Spin", "covariant.Der3E", "covariant.DerSpin", "covariant.Hamiltonian", "covariant.Identity",
+               "covariant.MassVel", "covariant.Morb_H", "covariant.Morb_Hpm", "covariant.Omega", "covariant.OmegaS", "covariant.QuantumMetric_ab", "covariant.Spin", "covariant.VelHplus",
+               "covariant.VelOmega", "covariant.VelSpin", "covariant.VelVel", "covariant.VelVelVel", "covariant.Velocity", "covariant.morb", "elementary.DerWln", "elementary.InvMass")
+QUICK_EXT_FALSE = ("basic.tildeFab_d", "basic.tildeFc_d", "basic.tildeHab_d", "covariant.DerMorb", "covariant.DerMorb_H", "covariant.DerOmega", "covariant.DerQuantumMetric_ab_d",
+                   "covariant.Dermorb", "covariant.OmegaHplus", "covariant.OmegaOmega")
+# do not finish within 150 s CPU each at nb=3 (measured): not covered
+NOT_FINISHING = ("covariant.Der2Morb", "covariant.Der2Morb_H", "covariant.Der2Omega", "covariant.Der2morb", "covariant.NLDrude_Z_orb_Hplus", "covariant.NLDrude_Z_orb_Omega",
+                 "covariant.emcha_surf")
+SLOW = ("covariant.OmegaHplus", "covariant.VelDQM", "covariant.VelDQM internal_terms=False", "covariant.NLDrude_Z_spin", "covariant.NLDrude_Z_spin external_terms=False")
+OUTSIDE += ["gauge covariance of the second-derivative / third-order classes " + ", ".join(NOT_FINISHING) + " (normal forms with the rotation atoms do not finish within 150 CPU-seconds per variant at nb=3; "
+            "never reported as passed)"]
+
+
+def is_quick(label):
+    base = label.split()[0]
+    return base in QUICK_BASES or (base in QUICK_EXT_FALSE and "external_terms=False" in label)
 
 
 def cases(tier, seed):
@@ -415,14 +430,20 @@ def cases(tier, seed):
             out.append(Case(f"periodic FFT {lib} G={G}", case_periodic_fft, dict(nb=2, G=G, fftlib=lib), timeout=600))
     out.append(Case("gauge tabulators nb=3", case_gauge_tab, dict(nb=3), timeout=600))
     labels = [l for l in registry() if l.split()[0] not in NOT_FINISHING]
-    light = [l for l in labels if not any(l.startswith(h) for h in HEAVY)]
-    for i in range(0, len(light), 6):
-        chunk = light[i:i + 6]
-        out.append(Case("gauge nb=3: " + "; ".join(chunk), case_gauge, dict(labels=chunk, nb=3), timeout=300 if q else 1100))
+    quick = [l for l in labels if is_quick(l)]
+    n = 14
+    for i in range(0, len(quick), n):
+        chunk = quick[i:i + n]
+        out.append(Case("gauge nb=3: " + "; ".join(chunk), case_gauge, dict(labels=chunk, nb=3), timeout=400 if q else 1100))
     if not q:
+        out.append(Case("gauge tabulators nb=4", case_gauge_tab, dict(nb=4), timeout=1100))
         for l in labels:
-            if any(l.startswith(h) for h in HEAVY):
-                out.append(Case("gauge nb=3 (gapped): " + l, case_gauge, dict(labels=[l], nb=3, gapped=True), timeout=1100))
+            if not is_quick(l):
+                out.append(Case("gauge nb=3: " + l, case_gauge, dict(labels=[l], nb=3), timeout=1150))
+        nb4 = [l for l in quick if l.split()[0] in ("covariant.Omega", "covariant.morb", "covariant.Morb_Hpm", "covariant.Velocity", "covariant.Spin", "elementary.InvMass", "basic.tildeFc")]
+        for i in range(0, len(nb4), 5):
+            chunk = nb4[i:i + 5]
+            out.append(Case("gauge nb=4: " + "; ".join(chunk), case_gauge, dict(labels=chunk, nb=4), timeout=1150))
     return out
 
 
